@@ -473,7 +473,7 @@ Lemma contiguous_from_true : forall ids l, contiguous_from l ids = Some true ->
 Proof.
   induction ids as [|i r IH]; intros l H; cbn [contiguous_from] in H.
   - exists [], l. split; reflexivity.
-  - destruct l as [|f l']; [discriminate|]. destruct (fr_id f =? i) eqn:E; [|discriminate]. apply N.eqb_eq in E.
+  - destruct l as [|f l']; cbn [contiguous_from] in H; [discriminate|]. destruct (fr_id f =? i) eqn:E; [|discriminate]. apply N.eqb_eq in E.
     destruct (IH l' H) as [mid [post [A B]]]. exists (f :: mid), post. subst l'. split; [reflexivity|].
     unfold frag_ids in *. cbn [map]. rewrite E, B. reflexivity.
 Qed.
@@ -515,7 +515,9 @@ Lemma hrf_struct {X} (c : Fragment -> list X) (Hc : forall f i, c (set_id f i) =
   exists N, Permutation final' (filter (not_in (flat_map rg_old groups)) final ++ N)
     /\ (forall x, In x (frag_ids N) -> In x (reserved_ids groups) \/ (fid <= x /\ x < fid'))
     /\ flat_map c N = flat_map c (flat_map rg_new groups)
-    /\ NoDup (frag_ids final') /\ fid <= fid'.
+    /\ NoDup (frag_ids final') /\ fid <= fid'
+    /\ (forall P : Fragment -> bool, (forall f i, P f = true -> P (set_id f i) = true) ->
+        forallb P (flat_map rg_new groups) = true -> forallb P N = true).
 Proof.
   induction groups as [|g rest IH]; intros final fid final' fid' H ND NR DJ LT LR NO IN.
   - cbn [handle_rewrite_fragments] in H. inversion H; subst. exists []. rewrite app_nil_r.
@@ -563,7 +565,7 @@ Proof.
       unfold not_in. apply negb_true_iff. apply n_mem_false. rewrite Ef. intro J. eapply NoDup_app_disj; [exact NOapp | exact J | exact I]. }
     match type of H with handle_rewrite_fragments ?F1 _ _ = _ => set (final1 := F1) in * end.
     assert (P1 : Permutation (frag_ids final1) (frag_ids (kept ++ newf))) by (apply frag_ids_perm; exact PERM).
-    destruct (IH final1 fid1 final' fid' H) as [N [PN [IDN [CN [NDF LF]]]]].
+    destruct (IH final1 fid1 final' fid' H) as [N [PN [IDN [CN [NDF [LF PP]]]]]].
     + eapply Permutation_NoDup; [apply Permutation_sym; exact P1 | exact ND1].
     + eapply NoDup_app_r; exact NR.
     + intros x I J. apply (Permutation_in _ P1) in I. unfold frag_ids in I. rewrite map_app in I. apply in_app_iff in I as [I|I].
@@ -589,4 +591,300 @@ Proof.
       * rewrite !flat_map_app_, CN. f_equal. pose proof (fwi_content c Hc (rg_new g) fid) as Q. rewrite EF in Q. exact Q.
       * exact NDF.
       * lia.
+      * intros P HP HA. rewrite forallb_app in HA. apply andb_true_iff in HA as [HA1 HA2]. rewrite forallb_app. apply andb_true_iff. split.
+        -- pose proof (fwi_forallb P HP (rg_new g) fid HA1) as Q. rewrite EF in Q. exact Q.
+        -- apply PP; assumption.
+Qed.
+
+(* ================================================================ F. the content invariant *)
+Lemma flat_map_flat_map {A B C} (f : A -> list B) (g : B -> list C) l :
+  flat_map g (flat_map f l) = flat_map (fun x => flat_map g (f x)) l.
+Proof. induction l as [|x r IH]; [reflexivity|]. cbn [flat_map]. rewrite flat_map_app_, IH. reflexivity. Qed.
+
+Lemma remove_tombstoned_id l :
+  forallb (fun f => forallb has_live_field (fr_files f)) l = true -> remove_tombstoned_data_files l = l.
+Proof.
+  unfold remove_tombstoned_data_files. induction l as [|f r IH]; cbn [forallb map]; intro H; [reflexivity|].
+  apply andb_true_iff in H as [A B]. rewrite IH by exact B. f_equal.
+  rewrite filter_all_true by exact A. destruct f; reflexivity.
+Qed.
+
+(* sorted lists with distinct ids that are permutations of each other are equal *)
+Lemma sorted_perm_eq : forall l1 l2, sorted_frags l1 -> sorted_frags l2 -> NoDup (frag_ids l1) -> Permutation l1 l2 -> l1 = l2.
+Proof.
+  induction l1 as [|a r1 IH]; intros l2 S1 S2 ND P.
+  - apply Permutation_nil in P. subst. reflexivity.
+  - destruct l2 as [|b r2]; [apply Permutation_sym, Permutation_nil in P; discriminate|].
+    cbn [sorted_frags] in S1, S2. destruct S1 as [A1 B1]. destruct S2 as [A2 B2].
+    assert (ND2 : NoDup (frag_ids (b :: r2))) by (eapply Permutation_NoDup; [apply frag_ids_perm; exact P | exact ND]).
+    assert (Ia : In a (b :: r2)) by (apply (Permutation_in _ P); left; reflexivity).
+    assert (Ib : In b (a :: r1)) by (apply (Permutation_in _ (Permutation_sym P)); left; reflexivity).
+    assert (Eab : a = b).
+    { destruct Ia as [E|Ia]; [symmetry; exact E|]. destruct Ib as [E|Ib]; [exact E|].
+      pose proof (le_all_In _ _ _ A1 Ib) as L1. pose proof (le_all_In _ _ _ A2 Ia) as L2.
+      assert (E : fr_id a = fr_id b) by lia. exfalso. unfold frag_ids in ND2. cbn [map] in ND2. inversion ND2; subst.
+      apply H1. rewrite <- E. apply in_map. exact Ia. }
+    subst b. f_equal. apply IH; [exact B1 | exact B2 | unfold frag_ids in *; cbn [map] in ND; inversion ND; assumption |].
+    eapply Permutation_cons_inv. exact P.
+Qed.
+Lemma le_all_filter p x l : le_all x l -> le_all x (filter p l).
+Proof. induction l as [|g r IH]; cbn [le_all filter]; intro H; [exact I|]. destruct H as [A B]. destruct (p g); cbn [le_all]; [split; [exact A | apply IH; exact B] | apply IH; exact B]. Qed.
+Lemma sorted_filter p l : sorted_frags l -> sorted_frags (filter p l).
+Proof.
+  induction l as [|f r IH]; cbn [sorted_frags filter]; intro H; [exact I|]. destruct H as [A B].
+  destruct (p f); cbn [sorted_frags]; [split; [apply le_all_filter; exact A | apply IH; exact B] | apply IH; exact B].
+Qed.
+Lemma strict_sorted_frags l : strict_sorted_n (frag_ids l) = true -> sorted_frags l.
+Proof.
+  induction l as [|f r IH]; intro H; [exact I|]. cbn [sorted_frags]. unfold frag_ids in *. cbn [map] in H.
+  destruct (strict_sorted_NoDup _ H) as [_ LT]. specialize (LT _ _ eq_refl). split.
+  - clear IH H. induction r as [|g r' IHr]; cbn [le_all]; [exact I|]. split.
+    + specialize (LT (fr_id g)). cbn [map] in LT. specialize (LT (or_introl eq_refl)). lia.
+    + apply IHr. intros z Iz. apply LT. cbn [map]. right. exact Iz.
+  - apply IH. cbn [strict_sorted_n] in H. destruct r as [|g r']; [reflexivity|]. cbn [map] in H. apply andb_true_iff in H as [_ H]. exact H.
+Qed.
+
+Lemma lookup_old_In l ids f : In f (lookup_old l ids) -> In f l.
+Proof.
+  unfold lookup_old. intro I. apply in_flat_map in I as [i [_ I]].
+  destruct (find (fun g => fr_id g =? i) l) as [g|] eqn:E; [|destruct I]. destruct I as [Eg|[]]. subst g. apply find_id_some in E. tauto.
+Qed.
+
+Lemma n_incl_In a b : n_incl a b = true -> forall x, In x a -> In x b.
+Proof. unfold n_incl. rewrite forallb_forall. intros H x I. apply n_mem_In. apply H. exact I. Qed.
+
+Section Invariant.
+Variable V : Type.
+Variable cell : list DataFile -> N -> V.
+Notation table_vrows := (table_vrows V cell).
+Notation vrows_of := (vrows_of V cell).
+
+(* one group: what the task wrote holds the live rows of its fragments, in order *)
+Lemma group_rows stable existing g :
+  group_ok stable existing g = true ->
+  (forall f, In f existing -> frag_consistent stable f = true /\ shape_ok stable f = true) ->
+  cells_ok V cell existing g ->
+  table_vrows (rg_new g) = table_vrows (lookup_old existing (rg_old g)).
+Proof.
+  unfold group_ok. rewrite !andb_true_iff. intros [[[[_ _] E] S] _] W C.
+  destruct (exec_task stable (lookup_old existing (rg_old g)) (map phys_n (rg_new g)) (frag_ids (rg_new g)) (map fr_files (rg_new g))) as [l| |] eqn:EX; try discriminate.
+  apply fragments_eqb_true in E. subst l. apply N.eqb_eq in S.
+  apply table_vrows_ext; [|exact C].
+  eapply exec_task_meta; [exact EX | | exact S]. intros f I. apply W. eapply lookup_old_In. exact I.
+Qed.
+
+Theorem content_invariant m groups ri fri cfg m' :
+  wf_manifest m = true -> versions_shape (uses_stable m) (m_fragments m) = true ->
+  groups_ok m groups = true ->
+  (forall g, In g groups -> cells_ok V cell (m_fragments m) g) ->
+  build_manifest (Some m) (Rewrite groups ri fri) cfg = Ok m' ->
+  Permutation (table_vrows (m_fragments m')) (table_vrows (m_fragments m))
+  /\ (forall g, In g groups -> table_vrows (rg_new g) = table_vrows (lookup_old (m_fragments m) (rg_old g)))
+  /\ filter (fun f => n_mem (fr_id f) (frag_ids (m_fragments m))) (m_fragments m')
+     = filter (not_in (flat_map rg_old groups)) (m_fragments m)
+  /\ m_schema m' = m_schema m /\ m_version m' = m_version m + 1
+  /\ (uses_stable m' = true -> m_next_row_id m' = m_next_row_id m).
+Proof.
+  intros WF SH GO CE H.
+  set (s := uses_stable m) in *. set (existing := m_fragments m) in *.
+  destruct (wf_facts s m WF eq_refl) as [SC [C [ND [MX [IX LT]]]]].
+  unfold groups_ok in GO. rewrite !andb_true_iff in GO. destruct GO as [[[G1 G2] G3] G4].
+  fold s in G1. fold existing in G1, G4.
+  rewrite forallb_forall in G1, G4. apply nodup_n_NoDup in G2, G3.
+  assert (W : forall f, In f existing -> frag_consistent s f = true /\ shape_ok s f = true).
+  { intros f I. split; [exact (forallb_In _ _ _ C I) | apply (proj1 (versions_shape_forall s existing) SH); exact I]. }
+  assert (ROWS : forall g, In g groups -> table_vrows (rg_new g) = table_vrows (lookup_old existing (rg_old g))).
+  { intros g I. apply (group_rows s); [apply G1; exact I | exact W | apply CE; exact I]. }
+  (* ---- unfold the commit *)
+  unfold build_manifest in H.
+  destruct (cfg_stable cfg && negb (uses_stable m)); [discriminate|].
+  bind_as H schema ES. cbn [op_schema] in ES. inversion ES; subst schema. clear ES.
+  bind_as H nri EN. bind_as H r EA. destruct r as [[final idx] nri'].
+  cbn [build_arm with_existing mbind] in EA.
+  bind_as EA r1 EH. destruct r1 as [final0 fidx]. bind_as EA idx1 EI. inversion EA; subst final idx nri'. clear EA.
+  cbn [start_fragment_id] in EH. fold existing in EH.
+  set (fid0 := match max_fragment_id m with Some id => id + 1 | None => 0 end) in *.
+  (* ---- the fragment list *)
+  assert (RS : forall x, In x (reserved_ids groups) -> ~ In x (frag_ids existing) /\ x < fid0).
+  { intros x I. specialize (G4 x I). apply andb_true_iff in G4 as [A B]. apply negb_true_iff in A. apply n_mem_false in A.
+    split; [exact A|]. unfold fid0. destruct (max_fragment_id m); [apply N.leb_le in B; lia | discriminate]. }
+  assert (INO : forall i, In i (flat_map rg_old groups) -> In i (frag_ids existing)).
+  { intros i I. apply in_flat_map in I as [g [Ig Ii]]. specialize (G1 g Ig). unfold group_ok in G1. rewrite !andb_true_iff in G1.
+    destruct G1 as [[[[_ A] _] _] _]. eapply n_incl_In; eassumption. }
+  destruct (hrf_struct vrows_of (vrows_set_id V cell) groups existing fid0 final0 fidx EH ND G3) as [Nn [PN [IDN [CN [NDF [LF PP]]]]]].
+  { intros x I J. apply (proj1 (RS x J)). exact I. }
+  { exact LT. }
+  { intros x I. apply RS. exact I. }
+  { exact G2. }
+  { exact INO. }
+  set (kept := filter (not_in (flat_map rg_old groups)) existing) in *.
+  (* ---- finish_manifest: sort, tombstoned files *)
+  unfold finish_manifest in H.
+  set (F := remove_tombstoned_data_files (sort_frags final0)) in *.
+  assert (LIVE : forallb (fun f => forallb has_live_field (fr_files f)) (kept ++ Nn) = true).
+  { rewrite forallb_app. apply andb_true_iff. split.
+    - apply forallb_forall. intros f I. unfold kept in I. apply filter_In in I as [I _].
+      unfold wf_manifest in WF. rewrite !andb_true_iff in WF. destruct WF as [[[[_ B] _] _] _].
+      pose proof (forallb_In _ _ _ B I) as Wf. unfold wf_fragment in Wf. apply andb_true_iff in Wf as [_ Wf]. exact Wf.
+    - apply PP; [intros f i Hf; destruct f; exact Hf|]. apply forallb_forall. intros f I. apply in_flat_map in I as [g [Ig If]].
+      specialize (G1 g Ig). unfold group_ok in G1. rewrite !andb_true_iff in G1. destruct G1 as [_ A]. exact (forallb_In _ _ _ A If). }
+  assert (PF : Permutation (sort_frags final0) (kept ++ Nn)) by (eapply Permutation_trans; [apply sort_frags_perm | exact PN]).
+  assert (EF : F = sort_frags final0).
+  { unfold F. apply remove_tombstoned_id. rewrite (forallb_perm _ _ _ PF). exact LIVE. }
+  bind_as H r2 E2. destruct r2 as [[version prev_max] storage]. inversion E2; subst version prev_max storage. clear E2.
+  destruct (existsb num_rows_underflows F); [discriminate|].
+  bind_as H stable ESt. bind_as H mx0 EM0. bind_as H mx EM1. inversion H; subst m'. clear H.
+  cbn [m_fragments m_schema m_version m_next_row_id uses_stable is_some].
+  rewrite EF.
+  (* ---- contents *)
+  assert (ALLOLD : Permutation existing (kept ++ lookup_old existing (flat_map rg_old groups))).
+  { apply perm_filter_lookup; [exact G2 | exact ND | exact INO]. }
+  repeat split.
+  - unfold Model_Compact.table_vrows.
+    eapply Permutation_trans; [apply flat_map_perm; exact PF|].
+    eapply Permutation_trans; [|apply Permutation_sym; apply flat_map_perm; exact ALLOLD].
+    rewrite !flat_map_app_. apply Permutation_app_head.
+    rewrite CN, lookup_old_flat, !flat_map_flat_map.
+    rewrite (flat_map_ext_in_ _ (fun g => flat_map vrows_of (lookup_old existing (rg_old g)))); [apply Permutation_refl|].
+    intros g I. exact (ROWS g I).
+  - exact ROWS.
+  - (* untouched fragments: same records, same order *)
+    set (P := fun f => n_mem (fr_id f) (frag_ids existing)).
+    apply sorted_perm_eq.
+    + apply sorted_filter. apply sort_frags_sorted.
+    + apply sorted_filter. apply strict_sorted_frags.
+      unfold wf_manifest in WF. rewrite !andb_true_iff in WF. destruct WF as [[[[_ _] B] _] _]. exact B.
+    + unfold frag_ids. apply NoDup_map_filter. eapply Permutation_NoDup; [apply Permutation_sym; apply frag_ids_perm; apply sort_frags_perm | exact NDF].
+    + eapply Permutation_trans; [apply filter_perm; exact PF|]. rewrite filter_app.
+      rewrite (filter_all P kept), (filter_none P Nn); [rewrite app_nil_r; apply Permutation_refl | |].
+      * intros f I. unfold P. apply n_mem_false. intro J.
+        destruct (IDN (fr_id f) (in_map _ _ _ I)) as [K|K]; [exact (proj1 (RS _ K) J) | specialize (LT _ J); fold fid0 in LT; lia].
+      * intros f I. unfold P. apply n_mem_In. apply in_map. unfold kept in I. apply filter_In in I. tauto.
+  - intro ST. destruct stable; [|discriminate ST].
+    unfold start_next_row_id in EN. fold s in EN. unfold s, uses_stable in *.
+    destruct (m_next_row_id m) as [n|] eqn:En.
+    + inversion EN; subst nri. reflexivity.
+    + (* a table without stable row ids cannot come out stable: every fragment kept its (absent) row ids *)
+      exfalso. destruct (cfg_stable cfg); [discriminate EN|]. inversion EN; subst nri. clear EN.
+      cbn [orb] in ESt.
+      destruct (existsb (fun f => is_some (fr_row_ids f)) F) eqn:EX; [|discriminate ESt].
+      apply existsb_exists in EX as [f [If Hf]]. rewrite EF in If. apply (Permutation_in _ PF) in If.
+      assert (Q : forallb (fun f => negb (is_some (fr_row_ids f))) (kept ++ Nn) = true).
+      { rewrite forallb_app. apply andb_true_iff. split.
+        - apply forallb_forall. intros g I. unfold kept in I. apply filter_In in I as [I _].
+          rewrite (frag_consistent_plain g (forallb_In _ _ _ C I)). reflexivity.
+        - apply PP; [intros g i Hg; destruct g; exact Hg|]. apply forallb_forall. intros g I. apply in_flat_map in I as [gr [Ig Ign]].
+          specialize (G1 gr Ig). unfold group_ok in G1. rewrite !andb_true_iff in G1. destruct G1 as [[[_ E] _] _].
+          cbn [is_some] in E. unfold exec_task in E.
+          apply fragments_eqb_true in E. rewrite <- E in Ign. clear E.
+          revert Ign. generalize (map phys_n (rg_new gr)) (frag_ids (rg_new gr)) (map fr_files (rg_new gr)).
+          intros sizes. induction sizes as [|sz r IHs]; intros ids files Ign; [destruct Ign|].
+          cbn [build_frags] in Ign. destruct Ign as [Eg|Ign]; [subst g; reflexivity | eapply IHs; exact Ign]. }
+      rewrite forallb_forall in Q. specialize (Q f If). rewrite Hf in Q. discriminate.
+Qed.
+End Invariant.
+
+(* ================================================================ G. the row-address remap *)
+(* --- the association list *)
+Lemma map_get_insert k v : forall m k', map_get (map_insert k v m) k' = if k' =? k then Some v else map_get m k'.
+Proof.
+  unfold map_get. induction m as [|[k0 v0] r IH]; intro k'; cbn [map_insert find fst snd].
+  - rewrite (N.eqb_sym k k'). destruct (k' =? k); reflexivity.
+  - destruct (k <? k0) eqn:L; [|destruct (k =? k0) eqn:E]; cbn [find fst snd].
+    + rewrite (N.eqb_sym k k'). destruct (k' =? k); reflexivity.
+    + apply N.eqb_eq in E. subst k0. rewrite (N.eqb_sym k k'). destruct (k' =? k); reflexivity.
+    + rewrite (N.eqb_sym k0 k'). destruct (k' =? k0) eqn:E0.
+      * apply N.eqb_eq in E0. subst k0. replace (k' =? k) with false; [reflexivity|]. symmetry. apply N.eqb_neq. intro; subst. rewrite N.eqb_refl in E. discriminate.
+      * rewrite IH. reflexivity.
+Qed.
+
+Definition ins_all (kvs : list (N * option N)) (m : list (N * option N)) : list (N * option N) :=
+  fold_left (fun m kv => map_insert (fst kv) (snd kv) m) kvs m.
+Lemma get_ins_all_other k : forall kvs m, ~ In k (map fst kvs) -> map_get (ins_all kvs m) k = map_get m k.
+Proof.
+  unfold ins_all. induction kvs as [|[k0 v0] r IH]; intros m H; [reflexivity|]. cbn [fold_left fst snd map] in *.
+  rewrite IH by (intro I; apply H; right; exact I). rewrite map_get_insert.
+  replace (k =? k0) with false; [reflexivity|]. symmetry. apply N.eqb_neq. intro E. apply H. left. symmetry. exact E.
+Qed.
+Lemma get_ins_all_in k v : forall kvs m, NoDup (map fst kvs) -> In (k, v) kvs -> map_get (ins_all kvs m) k = Some v.
+Proof.
+  unfold ins_all. induction kvs as [|[k0 v0] r IH]; intros m ND I; [destruct I|]. cbn [fold_left fst snd map] in *. inversion ND; subst.
+  destruct I as [E|I].
+  - inversion E; subst. fold (ins_all r (map_insert k v m)). rewrite get_ins_all_other by assumption.
+    rewrite map_get_insert, N.eqb_refl. reflexivity.
+  - apply IH; assumption.
+Qed.
+
+(* --- MissingAddrs as a merge of the expected addresses against the captured ones *)
+Fixpoint merge_miss (E P : list N) : list N :=
+  match E with
+  | [] => []
+  | e :: E' => if hd 0 P =? e then merge_miss E' (tl P) else e :: merge_miss E' P
+  end.
+Lemma merge_miss_zero E : merge_miss E [0] = merge_miss E [].
+Proof. induction E as [|e E' IH]; [reflexivity|]. cbn [merge_miss hd tl]. destruct (0 =? e); [reflexivity | rewrite IH; reflexivity]. Qed.
+
+Definition seg (d : digest) (o : N) : list N := map (row_address (dg_id d)) (n_range o (dg_phys d - o)).
+Definition all_dg (l : list digest) : list N := flat_map (fun d => seg d 0) l.
+Definition pend (last : option N) (addrs : list N) : list N := match last with Some v => v :: addrs | None => addrs end.
+Definition dg_ok (d : digest) : bool := (dg_id d <? two32) && (0 <? dg_phys d) && (dg_phys d <? two32).
+
+Lemma two32_pos : 0 < two32. Proof. unfold two32. lia. Qed.
+Lemma row_address_div id o : o < two32 -> row_address id o / two32 = id.
+Proof. intro L. unfold row_address. pose proof two32_pos. rewrite N.div_add_l by lia. rewrite N.div_small by exact L. lia. Qed.
+Lemma row_address_mod id o : o < two32 -> row_address id o mod two32 = o.
+Proof. intro L. unfold row_address. pose proof two32_pos. rewrite N.add_comm, N.mod_add by lia. apply N.mod_small. exact L. Qed.
+
+Lemma seg_step d o : o < dg_phys d -> seg d o = row_address (dg_id d) o :: seg d (o + 1).
+Proof.
+  intro L. unfold seg. replace (dg_phys d - o) with (N.succ (dg_phys d - (o + 1))) by lia. rewrite n_range_S. reflexivity.
+Qed.
+Lemma seg_end d : seg d (dg_phys d) = [].
+Proof. unfold seg. rewrite N.sub_diag. reflexivity. Qed.
+
+Lemma missing_walk_merge : forall fuel addrs last cur rest o,
+  forallb dg_ok (cur :: rest) = true -> o < dg_phys cur ->
+  (N.to_nat (dg_phys cur - o + sum_n (map dg_phys rest)) <= fuel)%nat ->
+  missing_walk fuel addrs last (row_address (dg_id cur) o) (cur :: rest)
+  = Some (merge_miss (seg cur o ++ all_dg rest) (pend last addrs)).
+Proof.
+  induction fuel as [|fuel IH]; intros addrs last cur rest o OK Lo F; [lia|].
+  cbn [forallb] in OK. apply andb_true_iff in OK as [OKc OKr]. pose proof OKc as OKc'. unfold dg_ok in OKc. rewrite !andb_true_iff in OKc.
+  destruct OKc as [[I1 I2] I3]. apply N.ltb_lt in I1, I2, I3.
+  cbn [missing_walk]. rewrite (seg_step cur o Lo). cbn [app merge_miss].
+  set (e := row_address (dg_id cur) o).
+  (* the value looked at *)
+  set (val := hd 0 (pend last addrs)).
+  assert (Eval : (let '(v, _) := match last with Some l => (l, addrs) | None => match addrs with a :: t => (a, t) | [] => (0, []) end end in v) = val).
+  { unfold val, pend. destruct last; [reflexivity | destruct addrs; reflexivity]. }
+  assert (Emod : (e + 1) mod two32 = o + 1).
+  { unfold e, row_address. pose proof two32_pos. replace (dg_id cur * two32 + o + 1) with (o + 1 + dg_id cur * two32) by lia. rewrite N.mod_add by lia. apply N.mod_small. lia. }
+  assert (Ecmp : (negb (val / two32 =? dg_id cur) || negb (val =? e)) = negb (val =? e)).
+  { destruct (val =? e) eqn:E; cbn [negb orb]; [|apply orb_true_r]. apply N.eqb_eq in E. rewrite E. unfold e. rewrite row_address_div by lia. rewrite N.eqb_refl. reflexivity. }
+  (* where the walk goes next *)
+  assert (NEXT : exists frags' expected',
+            (if (e + 1) mod two32 =? dg_phys cur then (rest, match rest with nxt :: _ => dg_id nxt * two32 | [] => e + 1 end) else (cur :: rest, e + 1)) = (frags', expected')
+            /\ forall addrs' last', missing_walk fuel addrs' last' expected' frags' = Some (merge_miss (seg cur (o + 1) ++ all_dg rest) (pend last' addrs'))).
+  { rewrite Emod. destruct (o + 1 =? dg_phys cur) eqn:EE.
+    - apply N.eqb_eq in EE. rewrite EE, seg_end. cbn [app]. destruct rest as [|nxt rest'].
+      + do 2 eexists. split; [reflexivity|]. intros. destruct fuel; reflexivity.
+      + cbn [all_dg flat_map]. assert (Pn : 0 < dg_phys nxt).
+        { cbn [forallb] in OKr. apply andb_true_iff in OKr as [Q _]. unfold dg_ok in Q. rewrite !andb_true_iff in Q. destruct Q as [[_ Q] _]. apply N.ltb_lt. exact Q. }
+        do 2 eexists. split; [reflexivity|]. intros.
+        replace (dg_id nxt * two32) with (row_address (dg_id nxt) 0) by (unfold row_address; lia).
+        apply IH; [exact OKr | exact Pn |]. cbn [map] in F. rewrite sum_n_cons in F. lia.
+    - apply N.eqb_neq in EE. do 2 eexists. split; [reflexivity|]. intros.
+      replace (e + 1) with (row_address (dg_id cur) (o + 1)) by (unfold e, row_address; lia).
+      apply IH; [cbn [forallb]; rewrite OKc', OKr; reflexivity | lia | lia]. }
+  destruct NEXT as [frags' [expected' [EN NX]]]. fold e. rewrite EN.
+  destruct last as [l|]; [|destruct addrs as [|a t]]; cbn [pend hd tl] in *; unfold val in *; cbn [hd] in *.
+  - rewrite Ecmp. destruct (l =? e) eqn:E; cbn [negb].
+    + rewrite (NX addrs None). reflexivity.
+    + rewrite (NX addrs (Some l)). reflexivity.
+  - rewrite Ecmp. destruct (0 =? e) eqn:E; cbn [negb].
+    + rewrite (NX [] None). reflexivity.
+    + rewrite (NX [] (Some 0)). cbn [pend]. rewrite merge_miss_zero. reflexivity.
+  - rewrite Ecmp. destruct (a =? e) eqn:E; cbn [negb].
+    + rewrite (NX t None). reflexivity.
+    + rewrite (NX t (Some a)). reflexivity.
 Qed.
